@@ -84,6 +84,7 @@ func (x *Exec) step(fr *Frame, ins ssa.Instruction, st *State) []alt {
 		if bc, ok := x.C.(BoundsClient); ok {
 			bc.OnBounds(x, st, fr, ins, "index", base, idx, nil)
 		}
+		base, idx = x.normIndex(base, idx)
 		return one(st, mk("index", "", nil, base, idx))
 	case *ssa.Index:
 		base := x.val(fr, ins.X)
@@ -91,6 +92,7 @@ func (x *Exec) step(fr *Frame, ins ssa.Instruction, st *State) []alt {
 		if bc, ok := x.C.(BoundsClient); ok {
 			bc.OnBounds(x, st, fr, ins, "index", base, idx, nil)
 		}
+		base, idx = x.normIndex(base, idx)
 		return one(st, mk("elem", "", ins.Type(), base, idx))
 	case *ssa.Slice:
 		base := x.val(fr, ins.X)
@@ -646,6 +648,11 @@ func (x *Exec) builtin(fr *Frame, st *State, site ssa.CallInstruction, name stri
 		if a.Op == "mapobj" && len(mapEntries(st, a)) == 0 {
 			return ret(tConst("0", typ))
 		}
+		if name == "len" && x.NormSubslice {
+			if l := x.normLen(a, typ); l != nil {
+				return ret(l)
+			}
+		}
 		return ret(mk("len", "", typ, a))
 	case "append":
 		a, b := args[0], tNil
@@ -699,4 +706,41 @@ func (x *Exec) builtin(fr *Frame, st *State, site ssa.CallInstruction, name stri
 	}
 	fatalf("pathsim: builtin %s not supported", name)
 	return nil
+}
+
+// normIndex rewrites an access s[lo:hi][j] of a slice of an opaque slice into
+// the access s[lo+j] of the underlying slice (they alias), so that elements
+// reached through `range s[:n]` and through `s[i]` are the same terms.
+func (x *Exec) normIndex(base, idx *Term) (*Term, *Term) {
+	if !x.NormSubslice {
+		return base, idx
+	}
+	for base.Op == "subslice" && len(base.Args) == 3 && base.Args[0].Op != "list" && !base.Args[0].isNilConst() {
+		if lo := base.Args[1]; !lo.isNilConst() {
+			idx = x.binop(token.ADD, lo, idx, idx.Typ)
+		}
+		base = base.Args[0]
+	}
+	return base, idx
+}
+
+// normLen: len(s[lo:hi]) = hi - lo (hi defaults to len(s), lo to 0) for an
+// opaque underlying slice.
+func (x *Exec) normLen(a *Term, typ types.Type) *Term {
+	if a.Op != "subslice" || len(a.Args) != 3 || a.Args[0].Op == "list" || a.Args[0].isNilConst() {
+		return nil
+	}
+	base, lo, hi := a.Args[0], a.Args[1], a.Args[2]
+	var l *Term
+	if hi.isNilConst() {
+		if l = x.normLen(base, typ); l == nil {
+			l = mk("len", "", typ, base)
+		}
+	} else {
+		l = hi
+	}
+	if !lo.isNilConst() {
+		l = x.binop(token.SUB, l, lo, typ)
+	}
+	return l
 }
